@@ -204,6 +204,101 @@ fn main() {
             out.spec_checked(false, d111);
         }
     }
+    // directed: the replace of meta.json fails (end of a merge / commit that empties a segment), then the same writer collects
+    for variant in ["merge", "commit"] {
+        let m = e1::meta_write_failure_then_gc(variant);
+        for (ok, d) in e1::meta_failure_verdicts(&m) { out.spec_checked(ok, d); }
+        let mut pids = PathIds::new();
+        let (evs, _) = e1::to_events(&m.log, &mut pids);
+        out.coq_case("tie", format!("monitor {}", e1::trace_term(&evs)), json!({"what": "commit/GC discipline on the trace of the directed meta.json-failure scenario", "variant": variant, "events": evs.len()}), true);
+        out.count("directed_meta_failure_scenarios", 1);
+    }
+    // directed: ONE failing open of a segment file while an IndexReader reloads -- reload() reports it, or the searcher it installs works
+    for (i, suffix) in [".pos", ".term", ".idx", ".fast", ".store", ".fieldnorm"].iter().enumerate() {
+        use tantivy::collector::Count;
+        use tantivy::query::TermQuery;
+        use tantivy::schema::IndexRecordOption;
+        use tantivy::{doc, Index, IndexSettings, IndexWriter, ReloadPolicy, TantivyDocument, Term};
+        let vd = VerifDirectory::new();
+        let (schema, f) = e1::schema();
+        let desc = json!({"directed": "two commits; a reader; a third commit; ONE failing open_read of a segment file during reader.reload()", "failing_open_of": suffix});
+        let r = tvh::guarded(|| -> tantivy::Result<Vec<(bool, serde_json::Value)>> {
+            let mut v = vec![];
+            let index = Index::create(vd.clone(), schema.clone(), IndexSettings::default())?;
+            let mut w: IndexWriter<TantivyDocument> = index.writer_with_num_threads(1, 15_000_000)?;
+            w.set_merge_policy(Box::new(tantivy::indexer::NoMergePolicy));
+            w.add_document(doc!(f.id => 1u64, f.tag => "t0", f.body => "alpha beta"))?;
+            w.commit()?;
+            let reader: tantivy::IndexReader = index.reader_builder().reload_policy(ReloadPolicy::Manual).try_into()?;
+            w.add_document(doc!(f.id => 2u64, f.tag => "t1", f.body => "alpha gamma"))?;
+            w.commit()?;
+            vd.set_fault_once(OpKind::OpenRead, suffix);
+            let rl = reader.reload();
+            let fired = vd.faults_fired();
+            let q = TermQuery::new(Term::from_field_text(f.body, "alpha"), IndexRecordOption::WithFreqsAndPositions);
+            let phrase = tantivy::query::PhraseQuery::new(vec![Term::from_field_text(f.body, "alpha"), Term::from_field_text(f.body, "gamma")]);
+            let s = reader.searcher();
+            let works = |s: &tantivy::Searcher, want_docs: usize| -> Result<(), String> {
+                let n = s.search(&q, &Count).map_err(|e| format!("term query: {e}"))?;
+                if n != want_docs { return Err(format!("term query counts {n}, expected {want_docs}")); }
+                let p = s.search(&phrase, &Count).map_err(|e| format!("phrase query: {e}"))?;
+                if p != want_docs - 1 { return Err(format!("phrase query counts {p}, expected {}", want_docs - 1)); }
+                let ids = e1::searcher_ids(s)?;
+                if ids.len() != want_docs { return Err(format!("{} documents, expected {want_docs}", ids.len())); }
+                Ok(())
+            };
+            if fired == 1 {
+                match &rl {
+                    // reported: the reader keeps its previous, working searcher (commit 1)
+                    Err(_) => v.push((works(&s, 1).is_ok(), json!({"what": "after a reload that reported an I/O error the reader's previous searcher does not work any more", "err": works(&s, 1).err(), "case": desc}))),
+                    // not reported: then whatever reload() installed must be a working searcher of the latest commit
+                    Ok(()) => v.push((works(&s, 2).is_ok(), json!({"what": "reload() swallowed an I/O error: it returned Ok and installed a searcher that does not work", "err": works(&s, 2).err(), "case": desc}))),
+                }
+            }
+            // without a fault the reload succeeds and shows the latest commit
+            let rl2 = reader.reload();
+            let s2 = reader.searcher();
+            v.push((rl2.is_ok() && works(&s2, 2).is_ok(), json!({"what": "a reload after the transient read error does not succeed / does not show the latest commit", "reload": format!("{:?}", rl2.map_err(|e| e.to_string())), "err": works(&s2, 2).err(), "case": desc})));
+            Ok(v)
+        });
+        match r {
+            Ok(Ok(v)) => for (ok, d) in v { out.spec_checked(ok, d); },
+            Ok(Err(e)) => out.spec_checked(false, json!({"what": "directed reload-fault scenario failed outside the faulted call", "err": e.to_string(), "case": desc})),
+            Err(p) => out.spec_checked(false, json!({"what": "panic in the directed reload-fault scenario", "panic": p, "case": desc})),
+        }
+        out.count("directed_reload_fault_scenarios", 1);
+        let _ = i;
+    }
+    // directed: the LAST indexing worker dies of an I/O error while the caller is blocked in add_document() on a full pipeline
+    for attempt in 0..2 {
+        use tantivy::{doc, Index, IndexSettings, IndexWriter, TantivyDocument};
+        let vd = VerifDirectory::new();
+        let (schema, f) = e1::schema();
+        let index = Index::create(vd.clone(), schema, IndexSettings::default()).unwrap();
+        let mut w: IndexWriter<TantivyDocument> = index.writer_with_num_threads(1, 15_000_000).unwrap();
+        // the worker stalls at the creation of its first file (a slow device), then the creation of its fast-field file fails
+        vd.set_hook(Some(std::sync::Arc::new(|_vd, _seq, kind, path| {
+            if *kind == OpKind::Create && path.ends_with(".store") && std::thread::current().name().map(|n| n.starts_with("thrd-tantivy-index")).unwrap_or(false) { std::thread::sleep(Duration::from_millis(1500)); }
+        })));
+        vd.set_fault_once(OpKind::Create, ".fast");
+        let (tx, rx) = mpsc::channel();
+        std::thread::Builder::new().name("producer".into()).spawn(move || {
+            let mut n = 0u64;
+            let mut err = None;
+            while n < 40_000 {
+                match w.add_document(doc!(f.id => n, f.tag => "t0", f.body => "x")) { Ok(_) => n += 1, Err(e) => { err = Some(e.to_string()); break; } }
+            }
+            let _ = tx.send((n, err));
+            // the writer is dropped here (a killed writer's drop must not hang either)
+        }).unwrap();
+        let desc = json!({"directed": "1 indexing thread stalled at its first file creation; the caller fills the pipeline (10_000 pending batches) and blocks in add_document; the worker's next file creation fails", "attempt": attempt});
+        match rx.recv_timeout(Duration::from_secs(45)) {
+            Ok((n, Some(_e))) => { out.spec_checked(true, json!({})); out.count("docs_accepted_before_the_worker_died", n); out.count("directed_blocked_add_scenarios", 1); break; }
+            Ok((n, None)) => { out.spec_checked(vd.faults_fired() == 0, json!({"what": "the last indexing worker died of an I/O error but 40000 add_document calls all returned Ok", "accepted": n, "case": desc})); out.count("directed_blocked_add_scenarios", 1); break; }
+            Err(_) if attempt == 0 => { out.count("timeouts_first_attempt", 1); continue; }
+            Err(_) => { out.spec_checked(false, json!({"what": "add_document() hangs: the caller was blocked on a full pipeline when the last indexing worker died of an I/O error and is never woken up (twice in a row, 45 s each)", "case": desc})); }
+        }
+    }
     let _ = Op::Commit;
     out.finish(json!({"tier": args.tier, "seed": args.seed}));
 }
